@@ -88,11 +88,19 @@ func TestVerifC13_API(t *testing.T) {
 			}
 		}
 		conflict, storedInBatch, storedLast, storedEarlier, rejected, bigBatch, bigConflict := false, false, false, false, false, false, false
+		restarts, overwriteAfterRestart := 0, false
+		heldAtRestart := map[uint64]bool{}
+		// a write of a different value to a column that held a value when the server was restarted
+		noteWrite := func(col, r uint64) {
+			if old, had := model[col]; had && old != r && heldAtRestart[col] {
+				overwriteAfterRestart = true
+			}
+		}
 		paths := map[string]bool{}
 		n := rapid.IntRange(1, vkit.Scale(14, 22)).Draw(t, "steps")
 		for i := 0; i < n; i++ {
 			l := fmt.Sprintf("s%d", i)
-			op := rapid.SampledFrom([]string{"Set", "Set", "Clear", "Import", "Import", "Import", "ImportClear", "ClearRow", "ImportBadBool"}).Draw(t, l+".op")
+			op := rapid.SampledFrom([]string{"Set", "Set", "Clear", "Import", "Import", "Import", "ImportClear", "ClearRow", "ImportBadBool", "Restart", "Restart"}).Draw(t, l+".op")
 			if op == "ImportBadBool" && kind != "bool" {
 				op = "Import"
 			}
@@ -107,6 +115,7 @@ func TestVerifC13_API(t *testing.T) {
 				var want bool
 				if op == "Set" {
 					want = !had || old != r
+					noteWrite(col, r)
 					model[col] = r
 				} else {
 					want = had && old == r
@@ -175,8 +184,20 @@ func TestVerifC13_API(t *testing.T) {
 							delete(model, cs[j])
 						}
 					} else {
+						noteWrite(cs[j], rs[j])
 						model[cs[j]] = rs[j]
 					}
+				}
+			case "Restart":
+				// clean restart of the server: the fragments are opened from disk again
+				c.hist = append(c.hist, "Reopen() of the server")
+				if err := env.cmd.Reopen(); err != nil {
+					c.fail("Reopen: %v", err)
+				}
+				restarts++
+				heldAtRestart = map[uint64]bool{}
+				for col := range model {
+					heldAtRestart[col] = true
 				}
 			case "ImportBadBool":
 				col := rapid.SampledFrom(vc13Cols).Draw(t, l+".col")
@@ -205,11 +226,11 @@ func TestVerifC13_API(t *testing.T) {
 		kc := vkit.NewCase().Key("c13api", kind, c.hist)
 		defer kc.Done()
 		kc.Class("kind:"+kind).ClassIf(conflict, "batchRepeatsColumnWithDifferentRows").ClassIf(storedInBatch, "storedValueAppearsInConflictingBatch")
-		kc.ClassIf(storedLast, "storedValueIsLastEntry").ClassIf(storedEarlier, "storedValueIsEarlierEntry").ClassIf(rejected, "boolRowAbove1Rejected").ClassIf(bigBatch, "batchOf13to60EntriesForOneShard").ClassIf(bigConflict, "bigBatchRepeatsColumnWithDifferentRows")
+		kc.ClassIf(storedLast, "storedValueIsLastEntry").ClassIf(storedEarlier, "storedValueIsEarlierEntry").ClassIf(rejected, "boolRowAbove1Rejected").ClassIf(restarts > 0, "serverRestarted").ClassIf(overwriteAfterRestart, "differentValueWrittenAfterRestartToHeldColumn").ClassIf(bigBatch, "batchOf13to60EntriesForOneShard").ClassIf(bigConflict, "bigBatchRepeatsColumnWithDifferentRows")
 		for p := range paths {
 			kc.Class("path:" + p)
 		}
-		kc.NT(storedInBatch || bigConflict)
+		kc.NT(storedInBatch || bigConflict || overwriteAfterRestart)
 		kc.Sample(map[string]interface{}{"kind": kind, "history": c.hist})
 	})
 }
